@@ -36,15 +36,16 @@ CONSTANTS
   Acts,        \* enabled run actions
   MinSteps, MaxSteps,
   RationalOnly,\* TRUE: updates/readings must be in the rational fragment
+  Twins,       \* TRUE: a renamed twin of the definition is drawn as well (C13)
   NeedDt,      \* TRUE: some update expression must depend on dt (time-stepping matters)
   BindLeaves,  \* TRUE: symbol leaves may be bound even when something was grown
   EmitOn,      \* FALSE: invariant checking only, nothing is printed
   NameSeq      \* <<>>: names are drawn freely from SymNames; otherwise taken in this order
                \* (exhaustive configurations, to keep the state space to the programs)
 
-VARIABLES phase, shape, prm, names, skeys, rnames, pts, pool, upd, sens, def, est, steps, last
+VARIABLES phase, shape, prm, names, skeys, rnames, pts, pool, upd, sens, def, est, steps, last, twin
 
-vars == <<phase, shape, prm, names, skeys, rnames, pts, pool, upd, sens, def, est, steps, last>>
+vars == <<phase, shape, prm, names, skeys, rnames, pts, pool, upd, sens, def, est, steps, last, twin>>
 
 Ring(vals, k, r) == vals[((k + r) % Len(vals)) + 1]
 
@@ -88,14 +89,22 @@ Init ==
   /\ phase = "names" /\ shape \in Shapes
   /\ prm \in [rc : 0..(Len(CalVals) - 1), rn : 0..(Len(PNoiseVals) - 1), k : Ks]
   /\ names = <<>> /\ skeys = <<>> /\ rnames = <<>> /\ pts = <<>> /\ pool = <<>>
-  /\ upd = <<>> /\ sens = <<>> /\ def = <<>> /\ est = <<>> /\ steps = <<>> /\ last = <<>>
+  /\ upd = <<>> /\ sens = <<>> /\ def = <<>> /\ est = <<>> /\ steps = <<>> /\ last = <<>> /\ twin = <<>>
 
 PickName(n) ==
   /\ phase = "names" /\ Len(names) < NSyms /\ n \in SymNames \ RangeOf(names)
   /\ (NameSeq # <<>> => n = NameSeq[Len(names) + 1])
   /\ names' = Append(names, n)
-  /\ phase' = IF Len(names) + 1 = NSyms THEN (IF NSens > 0 THEN "sensors" ELSE "points") ELSE phase
-  /\ UNCHANGED <<shape, prm, skeys, rnames, pts, pool, upd, sens, def, est, steps, last>>
+  /\ phase' = IF Len(names) + 1 = NSyms THEN (IF Twins THEN "twin" ELSE IF NSens > 0 THEN "sensors" ELSE "points") ELSE phase
+  /\ UNCHANGED <<shape, prm, skeys, rnames, pts, pool, upd, sens, def, est, steps, last, twin>>
+
+\* the renamed twin: a second, independently drawn, name for every symbol (a bijection names[i] -> twin[i]);
+\* the sort order of the twin names is unrelated to that of the originals, so the internal layout is permuted
+PickTwin(n) ==
+  /\ phase = "twin" /\ Len(twin) < NSyms /\ n \in SymNames \ RangeOf(twin)
+  /\ twin' = Append(twin, n)
+  /\ phase' = IF Len(twin) + 1 = NSyms THEN (IF NSens > 0 THEN "sensors" ELSE "points") ELSE phase
+  /\ UNCHANGED <<shape, prm, names, skeys, rnames, pts, pool, upd, sens, def, est, steps, last>>
 
 \* sensors are named one at a time; after the key, its reading names
 PickSensor(k) ==
@@ -103,7 +112,7 @@ PickSensor(k) ==
   /\ IF Len(skeys) = 0 THEN TRUE ELSE Len(rnames[Len(skeys)]) = shape.sens[Len(skeys)]
   /\ k \in SensorNames \ RangeOf(skeys)
   /\ skeys' = Append(skeys, k) /\ rnames' = Append(rnames, <<>>)
-  /\ UNCHANGED <<phase, shape, prm, names, pts, pool, upd, sens, def, est, steps, last>>
+  /\ UNCHANGED <<phase, shape, prm, names, pts, pool, upd, sens, def, est, steps, last, twin>>
 
 PickReading(r) ==
   /\ phase = "sensors"
@@ -114,7 +123,7 @@ PickReading(r) ==
      /\ r \in ReadingNames \ RangeOf(rnames[j])
      /\ rnames' = [rnames EXCEPT ![j] = Append(@, r)]
      /\ phase' = IF j = NSens /\ Len(rnames[j]) + 1 = shape.sens[j] THEN "points" ELSE phase
-  /\ UNCHANGED <<shape, prm, names, skeys, pts, pool, upd, sens, def, est, steps, last>>
+  /\ UNCHANGED <<shape, prm, names, skeys, pts, pool, upd, sens, def, est, steps, last, twin>>
 
 AddPoint(i, r) ==
   /\ phase = "points" /\ Len(pts) < NPoints
@@ -124,7 +133,7 @@ AddPoint(i, r) ==
   /\ pts' = Append(pts, [i |-> i, r |-> r])
   /\ IF Len(pts) + 1 = NPoints THEN phase' = "grow" /\ pool' = Leaves
                                ELSE UNCHANGED <<phase, pool>>
-  /\ UNCHANGED <<shape, prm, names, skeys, rnames, upd, sens, def, est, steps, last>>
+  /\ UNCHANGED <<shape, prm, names, skeys, rnames, upd, sens, def, est, steps, last, twin>>
 
 NGrown == Len(pool) - Len(Leaves)
 
@@ -138,12 +147,12 @@ Grow(op, i, j) ==
      /\ \A t \in DOMAIN pool : pool[t] # e
      /\ NodeOK(e)
      /\ pool' = Append(pool, e)
-  /\ UNCHANGED <<phase, shape, prm, names, skeys, rnames, pts, upd, sens, def, est, steps, last>>
+  /\ UNCHANGED <<phase, shape, prm, names, skeys, rnames, pts, upd, sens, def, est, steps, last, twin>>
 
 EndGrow ==
   /\ phase = "grow" /\ NGrown >= MinGrow
   /\ phase' = "bind"
-  /\ UNCHANGED <<shape, prm, names, skeys, rnames, pts, pool, upd, sens, def, est, steps, last>>
+  /\ UNCHANGED <<shape, prm, names, skeys, rnames, pts, pool, upd, sens, def, est, steps, last, twin>>
 
 \* updates are bound in slot order; upd is the sequence of bound trees
 \* (when something was grown, only grown nodes are bound; leaf-only definitions
@@ -152,7 +161,7 @@ Bindable(i) == i \in DOMAIN pool /\ (NGrown > 0 => (i > Len(Leaves) \/ (BindLeav
 BindUpdate(i) ==
   /\ phase = "bind" /\ Len(upd) < shape.nS /\ Bindable(i)
   /\ upd' = Append(upd, pool[i])
-  /\ UNCHANGED <<phase, shape, prm, names, skeys, rnames, pts, pool, sens, def, est, steps, last>>
+  /\ UNCHANGED <<phase, shape, prm, names, skeys, rnames, pts, pool, sens, def, est, steps, last, twin>>
 
 \* readings are bound sensor by sensor; sens is a flat sequence in (sensor, reading) order
 NReadingsTotal == LET RECURSIVE S(_) S(n) == IF n = 0 THEN 0 ELSE S(n - 1) + shape.sens[n] IN S(NSens)
@@ -160,7 +169,7 @@ BindReading(i) ==
   /\ phase = "bind" /\ Len(upd) = shape.nS /\ Len(sens) < NReadingsTotal /\ Bindable(i)
   /\ FreeSyms(pool[i]) \subseteq StateOf \cup CalibOf
   /\ sens' = Append(sens, pool[i])
-  /\ UNCHANGED <<phase, shape, prm, names, skeys, rnames, pts, pool, upd, def, est, steps, last>>
+  /\ UNCHANGED <<phase, shape, prm, names, skeys, rnames, pts, pool, upd, def, est, steps, last, twin>>
 
 \* flat index of reading t of sensor j
 FlatIx(j, t) == LET RECURSIVE S(_) S(n) == IF n = 0 THEN 0 ELSE S(n - 1) + shape.sens[n] IN S(j - 1) + t
@@ -185,7 +194,7 @@ Compile ==
   /\ (NeedDt => \E i \in DOMAIN upd : "dt" \in FreeSyms(upd[i]))
   /\ def' = MkDef
   /\ phase' = "run"
-  /\ UNCHANGED <<shape, prm, names, skeys, rnames, pts, pool, upd, sens, est, steps, last>>
+  /\ UNCHANGED <<shape, prm, names, skeys, rnames, pts, pool, upd, sens, est, steps, last, twin>>
 
 \* ---------------------------------------------------------------- run ----
 CanStep == phase = "run" /\ Len(steps) < MaxSteps
@@ -209,7 +218,7 @@ ModelEval(p) ==
      /\ ~\E t \in DOMAIN steps : steps[t].act = "ModelEval" /\ steps[t].dt = e.dt /\ steps[t].x = e.x
      /\ steps' = Append(steps, [act |-> "ModelEval", dt |-> e.dt, x |-> e.x, u |-> e.u, xn |-> xn])
      /\ last' = [act |-> "ModelEval"]
-  /\ UNCHANGED <<phase, shape, prm, names, skeys, rnames, pts, pool, upd, sens, def, est>>
+  /\ UNCHANGED <<phase, shape, prm, names, skeys, rnames, pts, pool, upd, sens, def, est, twin>>
 
 JacEval(p) ==
   /\ CanStep /\ "JacEval" \in Acts /\ p \in RangeOf(pts)
@@ -224,7 +233,7 @@ JacEval(p) ==
                                 Gt |-> IF AllRational THEN <<>> ELSE Gt,
                                 Vt |-> IF AllRational THEN <<>> ELSE Vt])
      /\ last' = [act |-> "JacEval"]
-  /\ UNCHANGED <<phase, shape, prm, names, skeys, rnames, pts, pool, upd, sens, def, est>>
+  /\ UNCHANGED <<phase, shape, prm, names, skeys, rnames, pts, pool, upd, sens, def, est, twin>>
 
 SensEval(key, p) ==
   /\ CanStep /\ "SensEval" \in Acts /\ p \in RangeOf(pts) /\ key \in RangeOf(skeys)
@@ -239,7 +248,7 @@ SensEval(key, p) ==
                                 Q |-> NoiseQ(def, key),
                                 Ht |-> IF AllRational THEN <<>> ELSE Ht])
      /\ last' = [act |-> "SensEval"]
-  /\ UNCHANGED <<phase, shape, prm, names, skeys, rnames, pts, pool, upd, sens, def, est>>
+  /\ UNCHANGED <<phase, shape, prm, names, skeys, rnames, pts, pool, upd, sens, def, est, twin>>
 
 CovOf(rp) == [r \in StateOf |-> [c \in StateOf |->
                 RAdd(IF r = c THEN RI(Ring(PDiag, Slot(r), rp)) ELSE Zero,
@@ -250,7 +259,7 @@ SetEstimate(p, rp) ==
   /\ est' = [x |-> PointEnv(p).x, P |-> CovOf(rp)]
   /\ steps' = Append(steps, [act |-> "SetEstimate", x |-> est'.x, P |-> est'.P])
   /\ last' = [act |-> "SetEstimate"]
-  /\ UNCHANGED <<phase, shape, prm, names, skeys, rnames, pts, pool, upd, sens, def>>
+  /\ UNCHANGED <<phase, shape, prm, names, skeys, rnames, pts, pool, upd, sens, def, twin>>
 
 Predict(p) ==
   /\ CanStep /\ "Predict" \in Acts /\ est # <<>> /\ p \in RangeOf(pts)
@@ -261,7 +270,7 @@ Predict(p) ==
      /\ est' = n
      /\ steps' = Append(steps, [act |-> "Predict", dt |-> e.dt, u |-> e.u, x |-> n.x, P |-> n.P])
      /\ last' = [act |-> "Predict", prior |-> est]
-  /\ UNCHANGED <<phase, shape, prm, names, skeys, rnames, pts, pool, upd, sens, def>>
+  /\ UNCHANGED <<phase, shape, prm, names, skeys, rnames, pts, pool, upd, sens, def, twin>>
 
 \* the reading offered to the filter: prediction + ring offset (rz = -1: exactly the prediction)
 ReadingFor(key, rz) ==
@@ -289,7 +298,7 @@ UpdateAccept(key, rz) ==
                                 boundary |-> GateOnBoundary(def.k, K.m, K.nis)])
      /\ last' = [act |-> "Update", outcome |-> "accepted", prior |-> est, exact |-> (rz < 0),
                  nis |-> K.nis, S |-> K.S]
-  /\ UNCHANGED <<phase, shape, prm, names, skeys, rnames, pts, pool, upd, sens, def>>
+  /\ UNCHANGED <<phase, shape, prm, names, skeys, rnames, pts, pool, upd, sens, def, twin>>
 
 \* a discarded reading leaves the estimate EXACTLY as it was, but the innovation is recorded
 UpdateReject(key, rz) ==
@@ -303,7 +312,7 @@ UpdateReject(key, rz) ==
                                 boundary |-> FALSE])
      /\ last' = [act |-> "Update", outcome |-> "rejected", prior |-> est, exact |-> (rz < 0),
                  nis |-> K.nis, S |-> K.S]
-  /\ UNCHANGED <<phase, shape, prm, names, skeys, rnames, pts, pool, upd, sens, def, est>>
+  /\ UNCHANGED <<phase, shape, prm, names, skeys, rnames, pts, pool, upd, sens, def, est, twin>>
 
 \* ---- the scikit-learn adapter's transform (C16) ---------------------------------
 \* the adapter starts from the default estimate: zero state, unit covariance (C13 defaults)
@@ -312,7 +321,7 @@ DefaultEstimate ==
   /\ est' = [x |-> [s \in StateOf |-> Zero], P |-> [r \in StateOf |-> [c \in StateOf |-> IF r = c THEN One ELSE Zero]]]
   /\ steps' = Append(steps, [act |-> "DefaultEstimate", x |-> est'.x, P |-> est'.P])
   /\ last' = [act |-> "DefaultEstimate"]
-  /\ UNCHANGED <<phase, shape, prm, names, skeys, rnames, pts, pool, upd, sens, def>>
+  /\ UNCHANGED <<phase, shape, prm, names, skeys, rnames, pts, pool, upd, sens, def, twin>>
 
 AdapterDt == <<1, 10>>      \* the adapter's fixed step
 
@@ -354,7 +363,7 @@ TransformRow(r, rz) ==
                                 ctlorder |-> Ord(CtrlOf),
                                 rorder |-> [key \in RangeOf(skeys) |-> Ord(RangeOf(rnames[IndexOf(key, skeys)]))]])
      /\ last' = [act |-> "TransformRow", nis |-> acc.nis]
-  /\ UNCHANGED <<phase, shape, prm, names, skeys, rnames, pts, pool, upd, sens, def>>
+  /\ UNCHANGED <<phase, shape, prm, names, skeys, rnames, pts, pool, upd, sens, def, twin>>
 
 (***************************************************************************)
 (* The adapter's score, as a formula TREE over the normalised innovations  *)
@@ -387,17 +396,21 @@ ScoreTree ==
                            Bin("div", Bin("add", Bin("div", CI(1), total), total), CI(2))),
                 Bin("mul", Const(<<1, 100>>), size))
 
-Scenario == [def |-> def, names |-> names, skeys |-> skeys, rnames |-> rnames, steps |-> steps,
+Rho == [i \in 1..Len(twin) |-> <<names[i], twin[i]>>]
+LayoutOf == [state |-> Ord(StateOf), control |-> Ord(CtrlOf), calib |-> Ord(CalibOf), sensors |-> Ord(RangeOf(skeys)),
+             readings |-> [key \in RangeOf(skeys) |-> Ord(RangeOf(rnames[IndexOf(key, skeys)]))]]
+Scenario == [def |-> def, rename |-> Rho, layout |-> LayoutOf, names |-> names, skeys |-> skeys, rnames |-> rnames, steps |-> steps,
              score |-> IF NisList = <<>> THEN <<>> ELSE ScoreTree]
 
 Emit ==
   /\ phase = "run" /\ Len(steps) >= MinSteps /\ EmitOn
   /\ PrintT(ToJson(Scenario))
   /\ phase' = "done"
-  /\ UNCHANGED <<shape, prm, names, skeys, rnames, pts, pool, upd, sens, def, est, steps, last>>
+  /\ UNCHANGED <<shape, prm, names, skeys, rnames, pts, pool, upd, sens, def, est, steps, last, twin>>
 
 Next ==
   \/ \E n \in SymNames : PickName(n)
+  \/ \E n \in SymNames : PickTwin(n)
   \/ \E k \in SensorNames : PickSensor(k)
   \/ \E r \in ReadingNames : PickReading(r)
   \/ \E i \in DOMAIN Dts : \E r \in 0..(Len(Vals) - 1) : AddPoint(i, r)
@@ -440,6 +453,26 @@ InvReject ==
 \* C16: every normalised innovation squared is non-negative
 InvNisNonNeg == /\ (last # <<>> /\ last.act = "Update") => RSign(last.nis) >= 0
                 /\ (last # <<>> /\ last.act = "TransformRow") => \A k \in DOMAIN last.nis : RSign(last.nis[k]) >= 0
+\* C13 (spec level): consistently renaming the symbols -- which permutes every internal layout -- leaves every
+\* named output unchanged.  True here because FilterMath never mentions positions; TLC checks it anyway.
+RhoF == [n \in RangeOf(names) |-> twin[IndexOf(n, names)]]
+RhoInv == [t \in RangeOf(twin) |-> names[IndexOf(t, twin)]]
+RenSet(S) == {RhoF[n] : n \in S}
+RenVec(f) == [t \in RenSet(DOMAIN f) |-> f[RhoInv[t]]]
+RenDef(d) == [state |-> RenSet(d.state), control |-> RenSet(d.control), calib |-> RenSet(d.calib),
+              update |-> [t \in RenSet(d.state) |-> RenameExpr(d.update[RhoInv[t]], RhoF)],
+              calmap |-> RenVec(d.calmap), pnoise |-> RenVec(d.pnoise),
+              sensors |-> [k \in DOMAIN d.sensors |-> [r \in DOMAIN d.sensors[k] |-> RenameExpr(d.sensors[k][r], RhoF)]],
+              snoise |-> d.snoise, k |-> d.k]
+InvRenaming ==
+  (Twins /\ phase \in {"run", "done"}) =>
+    \A p \in RangeOf(pts) :
+      LET e == PointEnv(p)
+          d2 == RenDef(def)
+          a == Step(def, e.dt, e.x, e.u)
+          b == Step(d2, e.dt, RenVec(e.x), RenVec(e.u)) IN
+      /\ \A s \in StateOf : a[s] = b[RhoF[s]]
+      /\ \A key \in DOMAIN def.sensors : Pred(def, key, e.x) = Pred(d2, key, RenVec(e.x))
 \* innovation covariance is symmetric positive definite
 InvSPD == (last # <<>> /\ last.act = "Update") =>
              NSymmetric(last.S) /\ PD(ToMat(last.S, Ord(DOMAIN last.S), Ord(DOMAIN last.S)))
